@@ -62,3 +62,36 @@ def check_frame_attrs(ctx, prop, rule):
                               f'{f.short} writes self.{t.attr} (`{norm(st)[:80]}`) - {what}; only {sorted(allowed)} may write it', where=loc(f, st))
     ctx.floor(f'writes of the protocol attributes of {prop}', n, len(mine))
     return n
+
+
+def check_dead_flag_lowering(ctx, rule):
+    """The base constructor raises the dead flag and says who lowers it: "set to False by the derived class, after a child is actually created".
+    Every store `self._dead = False` of the hierarchy is therefore dominated, on the control-flow graph of its function, by the call that starts
+    the child held in self._child.  A flag lowered earlier survives a start-up step that raises (a refused connection, a failing spawn): the
+    object - which restart() re-initialises in place and therefore outlives the failure - claims to be alive without having a child, and every
+    later is_alive() / wait() / terminate() / restart() on it fails with AttributeError instead of seeing a dead worker."""
+    P = ctx.prog
+    W = P.cls('Worker')
+    n_sites = 0
+    for f in P.funcs.values():
+        c = f.cls
+        if c is None or W not in c.mro():
+            continue
+        stores = [st for st in walk_local(f.node) if isinstance(st, ast.Assign) and any(is_self_attr(t, '_dead') for t in st.targets)
+                  and isinstance(st.value, ast.Constant) and st.value.value is False]
+        if not stores:
+            continue
+        ctx.used(f)
+        g = ctx.an.cfg(f, c)
+        dom = g.dominators()
+        started = {n.id for n in g.nodes if n.stmt is not None and not isinstance(n.stmt, (ast.FunctionDef, ast.ClassDef))
+                   if any(isinstance(x, ast.Call) and isinstance(x.func, ast.Attribute) and x.func.attr == 'start' and is_self_attr(x.func.value, '_child') for x in n.calls())}
+        for st in stores:
+            n_sites += 1
+            nodes = [n for n in g.nodes if n.stmt is st and n.part in (None, 'store')] or [n for n in g.nodes if n.stmt is st]
+            ok = bool(nodes) and all(dom.get(n.id, set()) & started for n in nodes)
+            ctx.check(rule, f'{f.short}: the dead flag is lowered only after the child has been started', ok, f.short, f'dead-flag-lowered-before-the-child-exists:{f.name}',
+                      f'{f.short} sets self._dead = False at a point that is not behind self._child.start(): if a step in between raises, the object claims to be alive '
+                      'without having a child - after a failed restart() every later is_alive / wait / terminate / restart raises AttributeError', where=loc(f, st))
+    ctx.floor('stores that lower the dead flag', n_sites, 4)
+    return n_sites
